@@ -75,9 +75,8 @@ def havoc(ex, sv, name):
             return V(VBool(fresh(name, vl.Bool)))
         return V(fresh(name, Val))
     if isinstance(sv, SSet):
-        import itertools
-        f = z3.Function('set_%s!%d' % (name, fresh('u', vl.Int).get_id()), Val, vl.Bool)
-        return SSet(pred=lambda k, f=f: f(k))
+        z = fresh(name, vl.SetS)
+        return SSet(pred=lambda k, z=z: vl.set_mem(z, k), sid=z)
     if isinstance(sv, SDict):
         valsort = vl.MapSet if sv.vkind == 'set' else vl.MapVal
         return SDict(fresh(name + '_dom', SetVal), fresh(name + '_val', valsort),
